@@ -15,6 +15,7 @@ from .. import gen, genfile
 from ..ref import midi1
 
 ID = 'C14'
+ANCHORS = ['mido.messages.strings', 'mido.messages.messages', 'mido.midifiles.tracks']
 LEVEL = 'exploration'
 RULE = ('messages: all 18 types x boundary attribute values (+ random) x times from {0, 1, -3, '
         '10**30, 2**53+1, 0.5, 0.1, -0.0, 1e-300, 1e300, 5e-324, ...}, sysex payloads of length '
